@@ -110,6 +110,12 @@ class Gen:
             (Perm, lambda: Perm(r.randrange(8))),
             (Literal["a", 1, False], lambda: r.choice(["a", 1, False])),
             (Literal[Color.RED, b"xy", 0], lambda: r.choice([Color.RED, b"xy", 0])),
+            # None spelled INSIDE the Literal, next to falsy members (normalised to Union[None, Literal[rest]])
+            (Literal["", "jr", None], lambda: r.choice(["", "jr", None])),
+            (Literal[0, 1, None], lambda: r.choice([0, 1, None])),
+            (Literal[False, "x", None], lambda: r.choice([False, "x", None])),
+            (Literal[b"", 0, None, Color.RED], lambda: r.choice([b"", 0, None, Color.RED])),
+            (Optional[Literal["", 0, False]], lambda: r.choice(["", 0, False, None])),
         ]
         return r.choice(opts)
 
@@ -212,10 +218,30 @@ class Gen:
                 make = lambda: {f[0]: gens[f[0]]() for f in fields}  # noqa: E731
             elif kind == "attrs":
                 import attrs
-                cls = attrs.make_class(name, {f[0]: attrs.field(type=f[1]) if f[3] is dataclasses.MISSING else
-                                              attrs.field(type=(f[1] if f[3] is not None else Optional[f[1]]),
-                                                          factory=(lambda f=f: dflt(f))) for f in fields})
-                make = lambda: cls(**{f[0]: (None if (f[3] is None and r.random() < 0.5) else gens[f[0]]()) for f in fields})  # noqa: E731
+                # attrs features: init aliases, defaults
+                # computed from the instance (Factory(takes_self=True): the loader cannot reproduce them and passes the
+                # field through **kwargs only when it is present)
+                flavour = r.choice(["plain", "plain", "alias", "takes_self", "mixed"])
+                attrs_spec, init_name = {}, {}
+                for j, f in enumerate(fields):
+                    an = f[0]
+                    kw = {}
+                    if flavour in ("alias", "mixed") and (j % 2 == 0 or flavour == "alias"):
+                        kw["alias"] = f"al_{f[0]}"
+                        init_name[an] = kw["alias"]
+                    else:
+                        init_name[an] = an
+                    if f[3] is dataclasses.MISSING:
+                        attrs_spec[an] = attrs.field(type=f[1], **kw)
+                    elif flavour in ("takes_self", "mixed", "alias") and r.random() < 0.6:
+                        attrs_spec[an] = attrs.field(type=(f[1] if f[3] is not None else Optional[f[1]]),
+                                                     default=attrs.Factory((lambda self, f=f: dflt(f)), takes_self=True), **kw)
+                    else:
+                        attrs_spec[an] = attrs.field(type=(f[1] if f[3] is not None else Optional[f[1]]),
+                                                     factory=(lambda f=f: dflt(f)), **kw)
+                cls = attrs.make_class(name, attrs_spec)
+                by_attr = list(zip(attrs_spec, fields))
+                make = lambda: cls(**{init_name[an]: (None if (f[3] is None and r.random() < 0.5) else gens[f[0]]()) for an, f in by_attr})  # noqa: E731
             else:
                 import pydantic
                 if any("Iterable" in str(f[1]) for f in fields):
